@@ -3,14 +3,19 @@
 Tie: for random fluent programs every node of every resulting graph is re-named by the model
 (Model/Names.lean renders `fname + repr(args) + repr(kwargs) + repr([input names])`, Python applies
 sha256) bottom-up and compared with the real `Node.name`; `from_source` labels likewise.
-Oracle: (a) building the same program twice gives the same names; (b) in the union of all actions
-of a program (shared sources) two nodes with the same name have the same callable (identity),
-statics and input names; (c) dims / coords / node identities of every live action are snapshotted
-before and after each operation and must not change.
+`Action.transform` with a func that hands back an existing action (or the receiver) is replayed on the
+heap model (`Names.transformH`): the node array of the result and of every action that existed before
+are compared with the real ones, node object by node object.
+Oracle: (a) building the same program twice gives the same names — twice in this process AND twice in
+a fresh interpreter (state surviving between builds may be saturated here); (b) in the union of all
+actions of a program (shared sources) two nodes with the same name have the same callable (identity),
+statics and inputs bound to the same parameters; (c) dims / coords / node identities of EVERY live
+action (not only the operands) are snapshotted before and after each operation and must not change.
 """
 import glob
 import hashlib
 import json
+import time
 
 PROPERTY = "C14"
 LEVEL_TEXT = ("Lean theorems over Model/Names.lean: a node name is a function of (callable __name__, statics, input names) only; for an "
@@ -27,12 +32,17 @@ LEAN_PROPS = ["EkwVerif.Props.C14"]
 LEAN_DRIVERS = ["C14"]
 RULE = ("random fluent programs as in C13 (shared sources, branches) extended with pairs of different callables of equal __name__ "
         "(two lambdas, two functions called `scale`, two reduce lambdas), repeated identical operations, equal callables with different "
-        "statics, binary operations between actions whose coordinate values differ (match_coord_values), stack/concatenate on size-1 "
-        "dimensions, transform with an identity function. non-trivial = program with >= 2 non-source statements; distinct by content hash")
+        "statics, binary operations between actions whose coordinate values differ (match_coord_values), non-commutative binary "
+        "operations with swapped operands (a-b and b-a, a/b and b/a), order-sensitive reductions over the same nodes joined / selected "
+        "in a different order, stack/concatenate on size-1 dimensions, transform with an identity function and with functions that "
+        "look up previously built actions (other than the receiver, lacking the join dimension; one or several parameters). Every "
+        "program is built twice in the check process and twice in a fresh interpreter. "
+        "non-trivial = program with >= 2 non-source statements; distinct by content hash")
 ASSUMPTIONS = [
     "sha256 is collision free on the rendered strings (hypothesis `Function.Injective H` of c14_injective_partial)",
     "callable identity is Python object identity (`is`) of the payload function",
     "statics are ints, floats, strings, bools, None, lists, tuples (the types the generator and the fluent API itself produce)",
+    "the func given to transform is one of: builds a new action from the receiver, returns the receiver, returns an action built before (TFunc)",
 ]
 
 KNOWN_COLLISION = {"kind": "name-collision", "cause": "equal-__name__"}
@@ -40,47 +50,137 @@ KNOWN_COLLISION = {"kind": "name-collision", "cause": "equal-__name__"}
 
 # ----------------------------------------------------------------------------- program generation
 
+def _plain(g, k):
+    from ekw import c13_fluent as F
+    return all(F.OPAQUE not in l for _, l in g.dims_of(k))
+
+
+def _ok(g, k):
+    return k is not None and not isinstance(g.env[k], tuple)
+
+
 def gen_program(rng, max_ops=4):
     from ekw import c13_fluent as F
     g = F.Gen(rng, max_ops=max_ops, max_pos=24)
     g.generate()
     # C14 extras on top of the C13 program: same operand, same statics, different / same callables
-    for _ in range(rng.randint(1, 4)):
+    for _ in range(rng.randint(2, 5)):
         lv = g.live()
         if not lv:
             break
         k = rng.choice(lv)
         dims = g.dims_of(k)
         r = rng.random()
-        if r < 0.22:
-            a, b = rng.choice([("lam1", "lam2"), ("dupA", "dupB"), ("lam1", "lam1"), ("neg", "neg")])
-            g.push({"op": "map", "a": k, "fn": a})
-            g.push({"op": "map", "a": k, "fn": b})
-        elif r < 0.36 and dims:
-            d = rng.choice(dims)[0]
-            a, b = rng.choice([("rlam1", "rlam2"), ("first", "first"), ("wsum", "first")])
-            g.push({"op": "reduce", "a": k, "fn": a, "dim": d, "bs": 0, "keep": False})
-            g.push({"op": "reduce", "a": k, "fn": b, "dim": d, "bs": 0, "keep": False})
-        elif r < 0.5:
-            g.push({"op": "map", "a": k, "fn": "affine", "k": 2})
-            g.push({"op": "map", "a": k, "fn": "affine", "k": rng.choice([2, 3])})
-        elif r < 0.62 and dims:
-            d, lab = rng.choice(dims)
-            if F.OPAQUE not in lab:
-                g.push({"op": "named", "a": k, "name": "sum", "dim": d, "bs": 0, "keep": False, "kw": []})
-                g.push({"op": "named", "a": k, "name": "sum", "dim": d, "bs": 0, "keep": False, "kw": [["axis", 0]] if rng.random() < 0.5 else []})
-        elif r < 0.74:
-            j = g.partner(k, relabel=True)
-            if j is not None:
-                g.push({"op": "arith", "a": k, "fn": rng.choice(["add", "subtract"]), "b": j})
-        elif r < 0.86 and dims:
-            ones = [d for d, l in dims if len(l) == 1]
-            d = rng.choice(ones) if ones and rng.random() < 0.8 else rng.choice(dims)[0]
-            g.push({"op": rng.choice(["stack", "concatenate"]), "a": k, "dim": d, "bs": 0, "keep": rng.random() < 0.3, "axis": 0})
-        else:
-            n = rng.randint(1, 2)
-            g.push({"op": "transform", "a": k, "func": "ident", "params": list(range(n)), "dim": g.name("t"), "axis": 0})
+        try:
+            _extra(g, rng, k, dims, r)
+        except Exception as e:   # the generator inspects real results; never let that crash a check
+            g.prog.setdefault("gen_notes", []).append(f"{type(e).__name__}: {str(e)[:80]}")
     return g.prog
+
+
+def _extra(g, rng, k, dims, r):
+    from ekw import c13_fluent as F
+    if r < 0.14:
+        a, b = rng.choice([("lam1", "lam2"), ("dupA", "dupB"), ("lam1", "lam1"), ("neg", "neg")])
+        g.push({"op": "map", "a": k, "fn": a})
+        g.push({"op": "map", "a": k, "fn": b})
+    elif r < 0.22 and dims:
+        d = rng.choice(dims)[0]
+        a, b = rng.choice([("rlam1", "rlam2"), ("first", "first"), ("wsum", "first")])
+        g.push({"op": "reduce", "a": k, "fn": a, "dim": d, "bs": 0, "keep": False})
+        g.push({"op": "reduce", "a": k, "fn": b, "dim": d, "bs": 0, "keep": False})
+    elif r < 0.30:
+        g.push({"op": "map", "a": k, "fn": "affine", "k": 2})
+        g.push({"op": "map", "a": k, "fn": "affine", "k": rng.choice([2, 3])})
+    elif r < 0.37 and dims:
+        d, lab = rng.choice(dims)
+        if F.OPAQUE not in lab:
+            g.push({"op": "named", "a": k, "name": "sum", "dim": d, "bs": 0, "keep": False, "kw": []})
+            g.push({"op": "named", "a": k, "name": "sum", "dim": d, "bs": 0, "keep": False, "kw": [["axis", 0]] if rng.random() < 0.5 else []})
+    elif r < 0.44:
+        j = g.partner(k, relabel=True)
+        if j is not None:
+            g.push({"op": "arith", "a": k, "fn": rng.choice(["add", "subtract"]), "b": j})
+    elif r < 0.56:
+        # the same non-commutative operation with the operands swapped: a-b and b-a over shared sources
+        j = g.partner(k, relabel=rng.random() < 0.5)
+        if j is not None:
+            fn = rng.choice(["subtract", "subtract", "divide", "pow", "add"])
+            g.push({"op": "arith", "a": k, "fn": fn, "b": j})
+            g.push({"op": "arith", "a": j, "fn": fn, "b": k})
+    elif r < 0.63:
+        # an order-sensitive reduction over the same nodes, joined in both orders
+        j = g.partner(k, relabel=False)
+        if j is not None:
+            nm = g.name("j")
+            fn = rng.choice(["wsum", "rlam1", "first"])
+            x = g.push({"op": "join", "a": k, "b": j, "dim": nm, "match": False})
+            y = g.push({"op": "join", "a": j, "b": k, "dim": nm, "match": False})
+            if _ok(g, x) and _ok(g, y):
+                g.push({"op": "reduce", "a": x, "fn": fn, "dim": nm, "bs": 0, "keep": False})
+                g.push({"op": "reduce", "a": y, "fn": fn, "dim": nm, "bs": 0, "keep": False})
+    elif r < 0.70 and dims:
+        # … and over the same nodes selected in a different order along the dimension
+        big = [(d, l) for d, l in dims if len(l) >= 2 and F.OPAQUE not in l and len(set(map(str, l))) == len(l)]
+        if big:
+            d, lab = rng.choice(big)
+            perm = list(lab)
+            while perm == list(lab):
+                rng.shuffle(perm)
+            x = g.push({"op": "select", "a": k, "dim": d, "vals": perm, "drop": False})
+            if _ok(g, x):
+                if rng.random() < 0.6:
+                    fn = rng.choice(["wsum", "rlam1"])
+                    g.push({"op": "reduce", "a": k, "fn": fn, "dim": d, "bs": 0, "keep": False})
+                    g.push({"op": "reduce", "a": x, "fn": fn, "dim": d, "bs": 0, "keep": False})
+                else:
+                    nm = rng.choice(["sum", "max"])
+                    g.push({"op": "named", "a": k, "name": nm, "dim": d, "bs": 0, "keep": False, "kw": []})
+                    g.push({"op": "named", "a": x, "name": nm, "dim": d, "bs": 0, "keep": False, "kw": []})
+    elif r < 0.78 and dims:
+        ones = [d for d, l in dims if len(l) == 1]
+        d = rng.choice(ones) if ones and rng.random() < 0.8 else rng.choice(dims)[0]
+        g.push({"op": rng.choice(["stack", "concatenate"]), "a": k, "dim": d, "bs": 0, "keep": rng.random() < 0.3, "axis": 0})
+    elif r < 0.84:
+        n = rng.randint(1, 2)
+        g.push({"op": "transform", "a": k, "func": "ident", "params": list(range(n)), "dim": g.name("t"), "axis": 0})
+    else:
+        _lookup_transform(g, rng, k)
+
+
+def _lookup_transform(g, rng, k):
+    """a.transform(lambda act, i: table[i], …): func hands back actions that were built before — another
+    action than the receiver, without the join dimension; the table may hold one action, the same action
+    several times, different actions of equal dimensions, or the receiver among others"""
+    others = [j for j in g.live() if j != k and _plain(g, j)]
+    shape = rng.random()
+    if not others or shape < 0.12:
+        j = g.partner(k, relabel=False, permute=False) if _plain(g, k) else None
+        if j is None:
+            return
+        others = [j]
+    j = rng.choice(others)
+    if shape < 0.40:
+        table = [j]
+    elif shape < 0.60:
+        table = [j] * rng.randint(2, 3)
+    elif shape < 0.85:
+        j2 = g.partner(j, relabel=rng.random() < 0.2, permute=rng.random() < 0.3)
+        table = [j, j2] if j2 is not None else [j, j]
+        if rng.random() < 0.3:
+            table.append(rng.choice(table))
+    else:
+        table = [k, j] if rng.random() < 0.5 else [j, k]
+    nd = len(g.dims_of(j))
+    nm = g.name("t")
+    dim = nm if rng.random() < 0.6 else [nm, g.labels_for(len(table), "str")]
+    axis = rng.randint(0, nd) if rng.random() < 0.8 else 0
+    g.push({"op": "transform", "a": k, "func": "lookup", "r": table, "params": list(range(len(table))), "dim": dim, "axis": axis})
+    # the actions handed back are used again afterwards
+    if rng.random() < 0.5:
+        g.push({"op": "map", "a": j, "fn": "neg"})
+    elif len(table) > 1 and table[1] != table[0]:
+        g.push({"op": "join", "a": table[0], "b": table[1], "dim": g.name("j"), "match": False})
 
 
 # ----------------------------------------------------------------------------- inspection of real graphs
@@ -154,24 +254,86 @@ def snapshot(action):
             "nodes": [id(x) for x in (n.data.flat if n.data.shape else [n.data.item()])]}
 
 
+# ----------------------------------------------------------------------------- heap cells (for the heap model of transform)
+
+class NodeIds:
+    """small integers for node objects (an Output of a multi-output node is its own object)"""
+
+    def __init__(self):
+        self.ids = {}
+        self.keep = []
+
+    def of(self, x):
+        from earthkit.workflows.graph import Output
+        key = (id(x.parent), x.name) if isinstance(x, Output) else (id(x), None)
+        if key not in self.ids:
+            self.ids[key] = len(self.ids) + 1
+            self.keep.append(x)
+        return self.ids[key]
+
+
+def cell_of(action, ids):
+    """the node array of an action as the heap model sees it; None when it is outside the model's vocabulary"""
+    from ekw import c13_fluent as F
+    n = action.nodes
+    dims = []
+    for d in n.dims:
+        d = str(d)
+        if d in n.coords:
+            lab = [F._canon_label(x) for x in n.coords[d].data.tolist()]
+            if F.OPAQUE in lab:
+                return None
+            dims.append([d, lab, True])
+        else:
+            dims.append([d, list(range(n.sizes[d])), False])
+    scalars = []
+    for k, v in n.coords.items():
+        if k in n.dims:
+            continue
+        if v.data.shape != ():
+            return None
+        lab = F._canon_label(v.data.item())
+        if lab == F.OPAQUE:
+            return None
+        scalars.append([str(k), lab])
+    data = n.data
+    return {"dims": dims, "scalars": sorted(scalars),
+            "nodes": [ids.of(x) for x in (data.flat if data.shape else [data.item()])]}
+
+
+HEAP_FUNCS = ("lookup", "ident")
+
+
 # ----------------------------------------------------------------------------- oracle
 
-def oracle_program(prog):
-    """returns (real env, list of (signature, text, statement index))"""
+def oracle_program(prog, heapops=None):
+    """returns (real env, list of (signature, text, statements involved)); `heapops` collects the
+    transforms whose func hands back an existing action, with the heap before and after (model tie)"""
     from ekw import c13_fluent as F
     viol = []
     snaps = {}
-
     srcinfo = {}
+    pending = {}
+    ids = NodeIds()
 
     def hook(when, k, st, env):
         live = {i: r for i, r in enumerate(env[:k]) if not isinstance(r, tuple)}
         if when == "after" and st["op"] == "source" and not isinstance(env[k], tuple):
             srcinfo[k] = source_items(env[k])
         if when == "before":
+            # EVERY action that exists, whether or not the statement mentions it
             snaps.clear()
             for i, a in live.items():
                 snaps[i] = snapshot(a)
+            pending.clear()
+            if heapops is not None and st["op"] == "transform" and st.get("func") in HEAP_FUNCS:
+                order = sorted(live)
+                cells = [cell_of(live[i], ids) for i in order]
+                table = st["r"] if st["func"] == "lookup" else [st["a"]] * len(st["params"])
+                if all(c is not None for c in cells) and all(t in live for t in table):
+                    pending.update({"order": order, "heap": cells, "a": order.index(st["a"]),
+                                    "kind": "lookup" if st["func"] == "lookup" else "self",
+                                    "targets": [order.index(t) for t in table], "dim": st["dim"], "axis": st["axis"]})
         else:
             for i, a in live.items():
                 now = snapshot(a)
@@ -179,19 +341,33 @@ def oracle_program(prog):
                     what = [key for key in ("dims", "shape", "coords", "nodes") if now[key] != snaps[i][key]]
                     role = "operand" if i in F.operands(st) else "bystander"
                     viol.append(({"kind": "operand-mutated", "op": st["op"], "changed": what[0]},
-                                 f"statement {k} {st} changed {what} of existing action v{i} ({role}): {snaps[i]['dims']} {snaps[i]['coords']} -> {now['dims']} {now['coords']}", k))
+                                 f"statement {k} {st} changed {what} of existing action v{i} ({role}): {snaps[i]['dims']} {snaps[i]['coords']} -> {now['dims']} {now['coords']}",
+                                 [k, i]))
+            if pending:
+                rec = {key: pending[key] for key in ("heap", "a", "kind", "targets", "dim", "axis")}
+                r = env[k]
+                if isinstance(r, tuple):
+                    real = {"err": r[1]}
+                else:
+                    after = [cell_of(live[i], ids) for i in pending["order"]]
+                    res = cell_of(r, ids)
+                    real = None if (res is None or any(c is None for c in after)) else {"heap": after, "result": res}
+                if real is not None:
+                    heapops.append((k, rec, real))
     env = F.run_real(prog, hook=hook)
     # (a) same program twice -> same names
     env2 = F.run_real(prog)
     for k, (r1, r2) in enumerate(zip(env, env2)):
         if isinstance(r1, tuple) or isinstance(r2, tuple):
             if isinstance(r1, tuple) != isinstance(r2, tuple):
-                viol.append(({"kind": "not-deterministic", "what": "outcome"}, f"statement {k} succeeded in one build and failed in the other", k))
+                viol.append(({"kind": "not-deterministic", "what": "outcome"}, f"statement {k} succeeded in one build and failed in the other", [k]))
             continue
         n1 = _names(r1)
         n2 = _names(r2)
         if n1 != n2:
-            viol.append(({"kind": "not-deterministic", "what": "names"}, f"statement {k} {prog['stmts'][k]}: two builds of the same program give different node names", k))
+            viol.append(({"kind": "not-deterministic", "what": "names"},
+                         f"statement {k} {prog['stmts'][k]}: two builds of the same program in one process give different node names "
+                         f"({_first_diff(n1, n2)})", [k]))
     # (b) union over shared sources: same name => same computation
     actions = [r for r in env if not isinstance(r, tuple)]
     nodes = collect_nodes(actions)
@@ -203,13 +379,19 @@ def oracle_program(prog):
         for other in group[1:]:
             cause = _differs(first, other)
             if cause:
-                k = _first_stmt_with(env, other)
                 viol.append(({"kind": "name-collision", "cause": cause},
                              f"two nodes named {name[:24]}… denote different computations ({cause}): "
-                             f"{_describe(first)} vs {_describe(other)}", k))
+                             f"{_describe(first)} vs {_describe(other)}", [_first_stmt_with(env, first), _first_stmt_with(env, other)]))
                 break
     prog["_srcinfo"] = srcinfo
     return env, viol
+
+
+def _first_diff(n1, n2):
+    for x, y in zip(n1, n2):
+        if x != y:
+            return f"{x[:28]}… vs {y[:28]}…"
+    return f"{len(n1)} vs {len(n2)} nodes"
 
 
 def _names(action):
@@ -221,7 +403,7 @@ def _names(action):
 def _describe(n):
     f, a, k = n.payload
     where = getattr(getattr(f, "__code__", None), "co_firstlineno", "?")
-    return f"{getattr(f, '__name__', '?')}(defined at line {where}){a}{k}<-{[o.parent.name[:10] for o in n.inputs.values()]}"
+    return f"{getattr(f, '__name__', '?')}(defined at line {where}){a}{k}<-{ {p: o.parent.name[:12] for p, o in n.inputs.items()} }"
 
 
 def _differs(n1, n2):
@@ -231,8 +413,9 @@ def _differs(n1, n2):
         return "equal-__name__" if getattr(f1, "__name__", "") == getattr(f2, "__name__", "") else "different-callables"
     if list(a1) != list(a2) or dict(k1) != dict(k2):
         return "statics"
-    i1 = [(k, o.parent.name, o.name) for k, o in n1.inputs.items()]
-    i2 = [(k, o.parent.name, o.name) for k, o in n2.inputs.items()]
+    # which input feeds which parameter (the order of the operands is part of the computation)
+    i1 = sorted((k, o.parent.name, o.name) for k, o in n1.inputs.items())
+    i2 = sorted((k, o.parent.name, o.name) for k, o in n2.inputs.items())
     if i1 != i2:
         return "inputs"
     if n1.outputs != n2.outputs:
@@ -251,70 +434,155 @@ def _first_stmt_with(env, node):
 
 # ----------------------------------------------------------------------------- correspondence
 
-def model_names(progs, envs):
-    """ask the model for the rendering of every real node; returns list of mismatches"""
+def model_names(progs, envs, heaps=None):
+    """ask the model for the rendering of every real node (and for the heap after every transform that
+    hands back an existing action); returns list of mismatches (prog, where, case, model, impl)"""
     from ekw.core import lean_drive
+    heaps = heaps or [[] for _ in progs]
     lines, metas = [], []
-    for prog, env in zip(progs, envs):
+    for prog, env, hops in zip(progs, envs, heaps):
         actions = [r for r in env if not isinstance(r, tuple)]
         nodes = collect_nodes(actions)
+        hjson = [rec for _, rec, _ in hops]
         try:
             recs = [node_record(n) for n in nodes]
         except TypeError as e:
             recs, nodes = [], []
-            metas.append((prog, nodes, recs, [], str(e)))
-            lines.append(json.dumps({"nodes": [], "sources": []}))
+            metas.append((prog, nodes, recs, [], hops, str(e)))
+            lines.append(json.dumps({"nodes": [], "sources": [], "heapops": hjson}))
             continue
         info = prog.get("_srcinfo")
         if info is None:
             info = {k: source_items(r) for k, (st, r) in enumerate(zip(prog["stmts"], env)) if st["op"] == "source" and not isinstance(r, tuple)}
         srcs = [info[k] for k in sorted(info)]
-        lines.append(json.dumps({"nodes": recs, "sources": [[[f, idx] for f, idx, _ in s] for s in srcs]}))
-        metas.append((prog, nodes, recs, srcs, None))
+        lines.append(json.dumps({"nodes": recs, "sources": [[[f, idx] for f, idx, _ in s] for s in srcs], "heapops": hjson}))
+        metas.append((prog, nodes, recs, srcs, hops, None))
     outs = lean_drive("C14", lines)
     bad = []
-    for (prog, nodes, recs, srcs, err), line in zip(metas, outs):
+    stats = {"heapops": 0, "heapops_out_of_scope": 0, "heapops_err": 0}
+    for (prog, nodes, recs, srcs, hops, err), line in zip(metas, outs):
+        m = json.loads(line)
+        for (k, rec, real), mo in zip(hops, m.get("heapops", [])):
+            if mo.get("err") == "outOfScope":
+                stats["heapops_out_of_scope"] += 1
+                continue
+            stats["heapops"] += 1
+            mo = {key: mo[key] for key in ("err", "heap", "result") if key in mo}
+            if "err" in real:
+                stats["heapops_err"] += 1
+            if mo != real:
+                bad.append((prog, "transform-heap", {"statement": k, "stmt": prog["stmts"][k], "heap_before": rec["heap"]}, mo, real))
+                break
+        if len(hops) != len(m.get("heapops", [])):
+            bad.append((prog, "transform-heap", {"heapops": len(hops)}, len(m.get("heapops", [])), len(hops)))
         if err:
             continue
-        m = json.loads(line)
         for n, rec, rend, ins in zip(nodes, recs, m["renders"], m["inputs"]):
             want = rec["label"] + ":" + hashlib.sha256(rend.encode()).hexdigest()
             if want != n.name:
-                bad.append((prog, {"node": {k: rec[k] for k in ("fname", "args", "kwargs", "inputs", "label")}},
+                bad.append((prog, "node-name", {"node": {k: rec[k] for k in ("fname", "args", "kwargs", "inputs", "label")}},
                             {"render": rend, "name": want}, {"name": n.name}))
                 break
-        for s, labels in zip(srcs, m["labels"]):
-            real = [l for _, _, l in s]
+        for s_, labels in zip(srcs, m["labels"]):
+            real = [l for _, _, l in s_]
             if real != labels:
-                bad.append((prog, {"source_labels": [[f, idx] for f, idx, _ in s]}, labels, real))
+                bad.append((prog, "source-labels", {"source_labels": [[f, idx] for f, idx, _ in s_]}, labels, real))
                 break
-    return bad
+    return bad, stats
 
 
 def _witnesses():
     S = {"op": "source", "dims": [["d0", [0, 10]]], "base": 0}
     S1 = {"op": "source", "dims": [["d0", [7]], ["d1", [0, 10]]], "base": 0}
+    T = {"op": "source", "dims": [["d0", [0, 10]]], "base": 2}
     return [
         # the known finding: two lambdas over the same inputs
         {"stmts": [S, {"op": "map", "a": 0, "fn": "lam1"}, {"op": "map", "a": 0, "fn": "lam2"}], "internal": [], "vseed": 0, "float": False},
         {"stmts": [S, {"op": "map", "a": 0, "fn": "dupA"}, {"op": "map", "a": 0, "fn": "dupB"}], "internal": [], "vseed": 0, "float": False},
-        # the two mutation defects of the pinned tree
+        # the mutation defects of the pinned tree
         {"stmts": [S, {"op": "source", "dims": [["d0", [100, 101]]], "base": 2}, {"op": "arith", "a": 0, "fn": "add", "b": 1}], "internal": [], "vseed": 0, "float": False},
         {"stmts": [S1, {"op": "stack", "a": 0, "dim": "d0", "bs": 0, "keep": False, "axis": 0}], "internal": [], "vseed": 0, "float": False},
         {"stmts": [S, {"op": "transform", "a": 0, "func": "ident", "params": [0, 1], "dim": "t", "axis": 0}], "internal": [], "vseed": 0, "float": False},
+        # operand order is part of the computation: a-b and b-a in one union
+        {"stmts": [S, T, {"op": "arith", "a": 0, "fn": "subtract", "b": 1}, {"op": "arith", "a": 1, "fn": "subtract", "b": 0}], "internal": [], "vseed": 0, "float": False},
+        # func hands back an action built before (not the receiver): several parameters / one parameter
+        {"stmts": [S, T, {"op": "transform", "a": 0, "func": "lookup", "r": [1, 1], "params": [0, 1], "dim": "t", "axis": 0}], "internal": [], "vseed": 0, "float": False},
+        {"stmts": [S, T, {"op": "transform", "a": 0, "func": "lookup", "r": [1], "params": [0], "dim": ["t", ["x"]], "axis": 0}], "internal": [], "vseed": 0, "float": False},
     ]
 
 
-def _shrink(prog, k, sig):
-    from ekw.props.c13 import _shrink as shrink13
+def _sub_program(prog, roots):
+    """the statements `roots` depend on (operands, actions a func hands back), renumbered"""
+    from ekw import c13_fluent as F
+    need = set()
 
-    def failing(q, kk):
-        return any(v[0] == sig for v in oracle_program(q)[1])
-    small, kk = shrink13(prog, k, failing)
-    return small
+    def visit(i):
+        if i in need or not (0 <= i < len(prog["stmts"])):
+            return
+        need.add(i)
+        for o in F.operands(prog["stmts"][i]):
+            visit(o)
+    for r in roots:
+        visit(r)
+    order = sorted(need)
+    ren = {old: new for new, old in enumerate(order)}
+    stmts = []
+    for i in order:
+        st = dict(prog["stmts"][i])
+        if st["op"] != "source":
+            for key in ("a", "b"):
+                if isinstance(st.get(key), int):
+                    st[key] = ren[st[key]]
+            if st.get("func") == "lookup":
+                st["r"] = [ren[j] for j in st["r"]]
+        stmts.append(st)
+    return dict(_clean(prog), stmts=stmts)
+
+
+def _shrink(prog, roots, sig, failing=None):
+    """drop the statements the failing ones do not depend on; keep the original when that no longer fails"""
+    if failing is None:
+        def failing(q):
+            return any(v[0] == sig for v in oracle_program(q)[1])
+    small = _sub_program(prog, roots)
+    if len(small["stmts"]) < len(prog["stmts"]):
+        try:
+            if failing(small):
+                return small
+        except Exception:
+            pass
+    return _clean(prog)
+
+
+# ----------------------------------------------------------------------------- fresh interpreters
+
+def _fresh_differs(prog, here=None):
+    """build `prog` twice in a fresh interpreter; (statement, text) of the first difference between those two builds
+    (and the builds of this process), or None"""
+    from ekw import c14_fresh as X
+    res = X.collect(X.spawn([prog]))
+    if not res or "b1" not in res[0]:
+        return None
+    return _judge_fresh(prog, res[0], here)
+
+
+def _judge_fresh(prog, res, here):
+    from ekw import c14_fresh as X
+    builds = [res["b1"], res["b2"]] + ([here] if here is not None else [])
+    k = X.first_difference(*builds)
+    if k is None:
+        return None
+    st = prog["stmts"][k] if k < len(prog["stmts"]) else None
+    col = [b[k] if k < len(b) else None for b in builds]
+    which = "its first and second build in a fresh interpreter" if col[0] != col[1] else "a fresh interpreter and the check process"
+    a, b = (col[0], col[1]) if col[0] != col[1] else (col[0], col[-1])
+    d = _first_diff(a, b) if isinstance(a, list) and isinstance(b, list) else f"{a} vs {b}"
+    return k, f"statement {k} {st}: building the same program again gives different node names — {which} disagree ({d})"
 
 
 def correspond(ctx):
+    from ekw import c13_fluent as F
+    from ekw import c14_fresh as X
     from ekw.core import CORPUS_DIR
     n = ctx.budget(140, 4000)
     progs = list(_witnesses())
@@ -322,38 +590,92 @@ def correspond(ctx):
         progs.append(json.load(open(f))["prog"])
     for _ in range(n):
         progs.append(gen_program(ctx.rng, max_ops=ctx.budget(4, 6)))
-    envs = []
+    # fresh interpreters build slices of the programs (twice each) while this process runs its own oracle;
+    # the first program of a slice meets the pristine module state, so small programs go first
+    nfresh = ctx.budget(3, 8)
+    sample = progs if ctx.quick else progs[:len(_witnesses())] + ctx.rng.sample(progs[len(_witnesses()):], min(len(progs) - len(_witnesses()), 600))
+    slices = [sorted(sample[i::nfresh], key=lambda q: len(q["stmts"])) for i in range(nfresh)]
+    slices[0] = [progs[0]] + [q for q in slices[0] if q is not progs[0]]
+    handles = []
+    try:
+        handles = [X.spawn(sl) for sl in slices]
+    except Exception as e:
+        ctx.notes.append(f"fresh interpreters unavailable: {type(e).__name__}: {str(e)[:80]}")
+    envs, heaps = [], []
     reported = set()
+    here = {}
     for p in progs:
+        hops = []
         try:
-            env, viol = oracle_program(p)
+            env, viol = oracle_program(p, hops)
         except Exception as e:   # the oracle itself must not crash the check
             ctx.notes.append(f"oracle error {type(e).__name__}: {str(e)[:100]}")
-            from ekw import c13_fluent as F
-            env, viol = F.run_real(p), []
+            env, viol, hops = F.run_real(p), [], []
         envs.append(env)
+        heaps.append(hops)
+        here[id(p)] = X.names_of_env(env)
         nontrivial = sum(1 for st, r in zip(p["stmts"], env) if st["op"] != "source" and not isinstance(r, tuple)) >= 2
         ctx.case({"stmts": p["stmts"][:8]}, nontrivial=nontrivial)
         ctx.count("depth:%d" % _depth(p))
         ctx.count("programs")
-        for st, r in zip(p["stmts"], env):
-            ctx.count("op:" + st["op"])
-            if st.get("fn") in ("lam1", "lam2", "dupA", "dupB", "rlam1", "rlam2"):
-                ctx.count("equal-name-callables")
-            if st["op"] in ("arith", "join") and "b" in st and not isinstance(r, tuple):
-                ctx.count("binary_between_actions_ok")
-        for sig, text, k in viol:
+        _count_features(ctx, p, env)
+        for sig, text, roots in viol:
             key = json.dumps(sig, sort_keys=True)
             ctx.count("oracle:" + sig["kind"])
             if key in reported:
                 continue
             reported.add(key)
-            ctx.violation(sig, {"prog": _clean(_shrink(p, k, sig))}, text)
-    bad = model_names(progs, envs)
+            ctx.violation(sig, {"prog": _shrink(p, roots, sig)}, text)
+    bad, stats = model_names(progs, envs, heaps)
     ctx.traces += len(progs)
     ctx.count("nodes_renamed_by_model", sum(len(_safe_nodes(e)) for e in envs))
-    for prog, case, model, impl in bad:
-        ctx.disagree("node-name", {"stmts": prog["stmts"][:10], **case}, model, impl)
+    for key, v in stats.items():
+        ctx.count(key, v)
+    for prog, where, case, model, impl in bad:
+        ctx.disagree(where, {"stmts": prog["stmts"][:10], **case}, model, impl)
+    # (a') the builds of the fresh interpreters
+    sig = {"kind": "not-deterministic", "what": "names"}
+    for sl, h in zip(slices, handles):
+        res = X.collect(h)
+        if res is None:
+            ctx.notes.append("a fresh interpreter did not answer; its programs were only compared within this process")
+            continue
+        for p, r in zip(sl, res):
+            if "b1" not in r:
+                ctx.notes.append("fresh interpreter: " + str(r.get("crash"))[:100])
+                continue
+            ctx.count("programs_built_in_fresh_interpreter")
+            verdict = _judge_fresh(p, r, here.get(id(p)))
+            if verdict is None:
+                continue
+            ctx.count("oracle:not-deterministic")
+            key = json.dumps(sig, sort_keys=True) + "fresh"
+            if key in reported:
+                continue
+            reported.add(key)
+            k, text = verdict
+            small = _shrink(p, [k], sig, failing=lambda q: _fresh_differs(q) is not None)
+            ctx.violation(sig, {"prog": small, "fresh": True}, text)
+
+
+def _count_features(ctx, p, env):
+    by_pair = {}
+    for k, (st, r) in enumerate(zip(p["stmts"], env)):
+        ctx.count("op:" + st["op"])
+        ok = not isinstance(r, tuple)
+        if st.get("fn") in ("lam1", "lam2", "dupA", "dupB", "rlam1", "rlam2"):
+            ctx.count("equal-name-callables")
+        if st["op"] in ("arith", "join") and "b" in st and ok:
+            ctx.count("binary_between_actions_ok")
+            if (st["op"], st.get("fn"), st["b"], st["a"]) in by_pair and st["a"] != st["b"]:
+                ctx.count("binary_with_swapped_operands_ok")
+            by_pair[(st["op"], st.get("fn"), st["a"], st["b"])] = k
+        if st["op"] == "transform" and st.get("func") == "lookup":
+            ctx.count("transform_lookup" + ("_ok" if ok else "_raises"))
+            if ok and any(j != st["a"] for j in st["r"]):
+                ctx.count("transform_returns_other_existing_action_ok")
+            if ok and len(st["r"]) == 1:
+                ctx.count("transform_lookup_single_param_ok")
 
 
 def _clean(prog):
@@ -372,16 +694,31 @@ def _safe_nodes(env):
         return []
 
 
+def _unknown_violation(ctx):
+    return any(not all(v["signature"].get(a) == b for a, b in KNOWN_COLLISION.items()) for v in ctx.violations)
+
+
 def search(ctx, why):
+    """(P) or (T) broken: larger oracle search on the real code — unless a failing input is already at hand"""
+    t0 = time.time()
     for _ in range(ctx.budget(400, 2000)):
+        if _unknown_violation(ctx) or (ctx.quick and time.time() - t0 > 25):
+            break
         p = gen_program(ctx.rng, max_ops=5)
         try:
             env, viol = oracle_program(p)
         except Exception:
             continue
         ctx.count("search_programs")
-        for sig, text, k in viol[:2]:
-            ctx.violation(sig, {"prog": _clean(_shrink(p, k, sig))}, text)
+        for sig, text, roots in viol[:2]:
+            ctx.violation(sig, {"prog": _shrink(p, roots, sig)}, text)
+    if not _unknown_violation(ctx):
+        # state that survives between builds shows only in a pristine process
+        for p in _witnesses()[:ctx.budget(2, 4)]:
+            v = _fresh_differs(p)
+            if v:
+                ctx.violation({"kind": "not-deterministic", "what": "names"}, {"prog": _clean(p), "fresh": True}, v[1])
+                break
 
 
 def oracle_only(ctx):
@@ -389,10 +726,17 @@ def oracle_only(ctx):
 
 
 def replay(payload):
-    prog = payload["case"]["prog"]
+    from ekw import c14_fresh as X
+    case = payload["case"]
+    prog = case["prog"]
     env, viol = oracle_program(prog)
     for k, (st, r) in enumerate(zip(prog["stmts"], env)):
         print(k, st, "->", r if isinstance(r, tuple) else _names(r)[:4])
-    for v in viol:
-        print("oracle:", v[0], v[1])
-    return 1 if viol else 0
+    bad = [(v[0], v[1]) for v in viol]
+    if case.get("fresh"):
+        v = _fresh_differs(prog, X.names_of_env(env))
+        if v:
+            bad.append(({"kind": "not-deterministic", "what": "names"}, v[1]))
+    for sig, text in bad:
+        print("oracle:", sig, text)
+    return 1 if bad else 0
